@@ -24,3 +24,142 @@ def need(run, rid, facts, npath):
 
 def short(npath):
     return npath.split("::", 2)[-1] if npath.count("::") > 2 else npath
+
+
+def family(facts, body, depth=3, keep=()):
+    """[body, closures..., repo-local helpers and their closures...]: everything whose code runs as part of `body`
+    and that a refactoring may move code into.  Functions named in `keep` (npaths / last segments) or known to the
+    rules by name (vocab) are not entered."""
+    from analysis.facts import norm
+    keep = set(keep)
+    out, seen = [], set()
+    work = [(body, 0)]
+    while work:
+        b, d = work.pop(0)
+        if b.path in seen or b.kind == "Promoted":
+            continue
+        seen.add(b.path)
+        out.append(b)
+        for c in facts.closures_of(b):
+            work.append((c, d))
+        if d >= depth:
+            continue
+        for (_x, t) in b.calls():
+            if t.get("local") and t.get("resolved", True) and not t.get("exp"):
+                c = norm(t["callee"])
+                if c in keep or c.rsplit("::", 1)[-1] in keep or c.rsplit("::", 1)[-1] in vocab():
+                    continue      # a function the rules know by name is a unit of its own
+                for cb in facts.by_npath.get(c, []):
+                    if cb.kind in ("Fn", "AssocFn") and cb.abi in (None, "Rust"):
+                        work.append((cb, d + 1))
+    return out
+
+
+_VOCAB = None
+
+
+def vocab():
+    """Every identifier that occurs inside a string literal of a rule or analysis module: the function names the rules
+    look for.  A repo-local callee whose name is in this set stays a call when a body is inlined for a rule; a callee
+    the rules have never heard of (an extracted helper) is spliced into its caller."""
+    global _VOCAB
+    if _VOCAB is None:
+        import glob, io, os, re, tokenize
+        here = os.path.dirname(os.path.abspath(__file__))
+        ids = set()
+        for p in glob.glob(os.path.join(here, "*.py")) + glob.glob(os.path.join(os.path.dirname(here), "analysis", "*.py")):
+            if p.endswith("inline.py"):
+                continue
+            with open(p, "rb") as fh:
+                try:
+                    for tok in tokenize.tokenize(fh.readline):
+                        if tok.type == tokenize.STRING:
+                            lit = tok.string
+                            # only path-like literals ("A::b", "<X as T>::f", "name"), not prose
+                            if re.search(r"\s", lit.replace(" as ", "")) or len(lit) > 200:
+                                continue
+                            ids.update(re.findall(r"[A-Za-z_][A-Za-z0-9_]*", lit))
+                except tokenize.TokenError:
+                    pass
+        _VOCAB = ids
+    return _VOCAB
+
+
+def inl(facts, body, keep=(), **kw):
+    """`body` as one unit for a rule: closures, modelled combinators, local Drop impls and helpers the rules do not
+    name are spliced in (analysis.inline)."""
+    from analysis.inline import inline
+    v = vocab()
+    def only(cb):
+        if cb.kind == "Closure":
+            return True
+        if cb.impl_trait == "std::ops::Drop":
+            # a Drop impl is known to the rules by its type, not by the method name
+            return (cb.impl_of or "").rsplit("::", 1)[-1] not in v
+        return cb.npath.rsplit("::", 1)[-1] not in v
+    return inline(body, facts, keep=set(keep), only=only, **kw)
+
+
+_CALLERS = {}
+
+
+def callers_map(facts):
+    """npath -> set of npaths that call it (resolved repo-local calls); a closure counts as called by the function
+    that defines it."""
+    k = id(facts)
+    if k not in _CALLERS:
+        from analysis.facts import norm
+        m = {}
+        for b in facts.bodies:
+            if b.kind == "Promoted":
+                continue
+            if "::{closure#" in b.path:
+                m.setdefault(b.npath, set()).add(norm(b.path.rsplit("::{closure#", 1)[0]))
+            for (_x, t) in b.calls(include_cleanup=True):
+                if t.get("local") and t.get("callee"):
+                    m.setdefault(norm(t["callee"]), set()).add(b.npath)
+            for blk in b.blocks:
+                for s in blk["stmts"]:
+                    if s["k"] == "assign":
+                        # a function item taken by value (fn pointer / callback) counts as a use by this body
+                        for o in ([s["rhs"].get("a")] if s["rhs"].get("a") else []) + list(s["rhs"].get("ops") or []):
+                            if isinstance(o, dict) and o.get("k") == "const" and o.get("fn") and o["fn"].get("local"):
+                                m.setdefault(norm(o["fn"]["callee"]), set()).add(b.npath)
+        _CALLERS[k] = m
+    return _CALLERS[k]
+
+
+def uncovered_roots(facts, fn, allowed):
+    """Entry points from which `fn` is reachable without passing a function in `allowed`: [] when every call chain
+    into `fn` starts inside `allowed` (fn is a private helper of the allowed functions)."""
+    cm = callers_map(facts)
+    if fn in allowed:
+        return []
+    bad, seen, work = [], set(), [fn]
+    while work:
+        x = work.pop()
+        if x in seen:
+            continue
+        seen.add(x)
+        cs = cm.get(x, set()) - {x}
+        if not cs:
+            bad.append(x)      # nobody calls it: it is its own entry point (public API, trait method, callback)
+            continue
+        for c in cs:
+            if c not in allowed:
+                work.append(c)
+    return sorted(bad)
+
+
+def unit(run, rid, facts, npath, keep=()):
+    """need() + inl(): the named function as one unit (closures, combinators, unnamed helpers, local Drop spliced in)."""
+    b = need(run, rid, facts, npath)
+    return inl(facts, b, keep=keep) if b is not None else None
+
+
+def closure_with(facts, parent_npath, pred):
+    """The closure (at any depth) of `parent_npath` whose body satisfies pred -- closures are found by what they do,
+    not by their index, which shifts when another closure is added in front."""
+    from analysis.facts import norm
+    out = [c for c in facts.bodies if c.kind == "Closure" and c.npath.startswith(parent_npath + "::{closure#") and pred(c)]
+    return out[0] if len(out) == 1 else None
